@@ -632,8 +632,136 @@ def many_reconnects_case(ctx, case):
     ctx.label('many_reconnects_%d' % n)
 
 
+def refused_case(ctx, case):
+    """'connect() or status() on a connection that is still active fails
+    with an invalid-state error and leaves the active connection
+    undisturbed': every public piece of the active session's state is the
+    same after the refused call as before it, and the session goes on
+    answering.  The session is quiescent while the calls are made (free-
+    running threads on the in-memory network), so any difference is the
+    refused call's doing.
+    case {version, negotiate, pos, compress, ops [connect|status]}"""
+    import json
+    import time
+    from minecraft.exceptions import InvalidState
+    version = case['version']
+    ctx.ev()
+    other = 757 if version != 757 else 578
+    login = [('compress', case['compress'])] \
+        if case.get('compress') is not None else []
+    bursts = [[('keep_alive', {'keep_alive_id': 1})]]
+    if case.get('pos'):
+        v = {'x': 1.0, 'y': 64.0, 'z': -3.0, 'yaw': 0.0, 'pitch': 0.0,
+             'flags': 0}
+        lay = dict(servers.packet_info(version, 'pos_look')[1])
+        if 'teleport_id' in lay:
+            v['teleport_id'] = 7
+        if 'dismount_vehicle' in lay:
+            v['dismount_vehicle'] = False
+        bursts.insert(0, [('pos_look', v)])
+    main = servers.Server({'version': version, 'login': login +
+                           [('success',)],
+                           'play': {'bursts': bursts, 'mode': 'all',
+                                    'end': 'silent'}})
+    srvs = [main]
+    kw = {'allowed_versions': {version}}
+    if case.get('negotiate'):
+        # negotiated session at a version that is not the default one
+        srvs.insert(0, servers.Server({
+            'version': version,
+            'status': {'reply': json.dumps({
+                'version': {'name': 'x', 'protocol': version},
+                'description': {'text': 'hi'},
+                'players': {'max': 1, 'online': 0}}),
+                'close_after_reply': True}}))
+        kw = {'allowed_versions': {version, other},
+              'initial_version': other}
+    extra = []
+
+    def more(addr):
+        extra.append(addr)
+        return servers.Server({'version': version, 'login': [('success',)],
+                               'play': {'bursts': [], 'end': 'disconnect'}})
+    world = vnet.World(servers=list(srvs), default=more)
+
+    def snap(conn):
+        q = getattr(conn, '_outgoing_packet_queue', None)
+        return {'spawned': conn.spawned, 'connected': conn.connected,
+                'protocol_version': conn.context.protocol_version,
+                'reactor': type(conn.reactor).__name__,
+                'socket': id(conn.socket), 'stream': id(conn.file_object),
+                'thread': id(conn.networking_thread),
+                'pending_thread': id(conn.new_networking_thread)
+                if hasattr(conn, 'new_networking_thread') else None,
+                'queued': len(q) if q is not None else None}
+    with vnet.installed(world):
+        conn, o = servers.make_connection(world, **kw)
+        try:
+            conn.connect()
+            for _ in range(5000):
+                if main.play_started and main.link is not None and \
+                        main.reply_frames >= main.expected_replies > 0:
+                    break
+                time.sleep(0.001)
+            link = main.link
+            if link is None or not world.wait_idle(link, conn):
+                from vlib.core import HarnessError
+                raise HarnessError('C16 refused: session did not settle')
+            if case.get('pos') and not conn.spawned:
+                # (C11's business; here it is only the pre-history)
+                ctx.label('refused_prehistory_not_spawned')
+            for op in case['ops']:
+                before = snap(conn)
+                err = None
+                try:
+                    if op == 'connect':
+                        conn.connect()
+                    else:
+                        conn.status(handle_status=False)
+                except InvalidState:
+                    err = 'InvalidState'
+                except Exception as e:
+                    err = '%s: %s' % (type(e).__name__, e)
+                after = snap(conn)
+                if err != 'InvalidState':
+                    ctx.fail('refused', 'S2-call-on-active-connection', dict(
+                        case, op=op), err, 'InvalidState')
+                    break
+                if after != before:
+                    diff = {k: (before[k], after[k]) for k in before
+                            if before[k] != after[k]}
+                    ctx.fail('refused', 'S2-refused-call-changed-state',
+                             dict(case, op=op), repr(diff), 'no change')
+                    break
+            # the session goes on undisturbed
+            main.send_item(('keep_alive', {'keep_alive_id': 2}))
+            world.wait_idle(link, conn)
+            if main.replies[-1:] != [('keep_alive', 2)] or main.errors or \
+                    extra or o.exceptions:
+                ctx.fail('refused', 'S2-active-session-disturbed', case,
+                         (main.replies[-2:], main.errors[:2], extra,
+                          [repr(e[0]) for e in o.exceptions]),
+                         'keep-alive 2 answered, no further connection')
+            conn.disconnect()
+            state = world.settle(timeout=20.0)
+        except Exception as e:
+            if type(e).__name__ == 'HarnessError':
+                world.kill_all()
+                raise
+            ctx.fail('refused', 'S2-raised', case, exc=e)
+            world.kill_all()
+            return
+    if state != 'done':
+        ctx.fail('refused', 'S4-thread-not-terminated', case, state)
+        world.kill_all()
+        return
+    ctx.nt('refused', repr(case))
+    ctx.label('refused')
+
+
 COMPONENTS = {'history': history_case, 'stalled': stalled_case,
-              'many_reconnects': many_reconnects_case}
+              'many_reconnects': many_reconnects_case,
+              'refused': refused_case}
 
 OPS = ['connect', 'status', 'disconnect', 'disconnect_now', 'settle',
        'step']
@@ -764,9 +892,27 @@ def t_stalled(ctx):
                         '3 positions x 2 disconnect modes')
 
 
+def t_refused(ctx):
+    k = 0
+    for v in (757, 578, 340, 107, 47):
+        for neg in (False, True):
+            for pos in (True, False):
+                for ops in (['connect'], ['status'], ['status', 'connect'],
+                            ['connect', 'connect', 'status']):
+                    k += 1
+                    refused_case(ctx, {'version': v, 'negotiate': neg,
+                                       'pos': pos, 'ops': ops,
+                                       'compress': [None, 64, 0][k % 3]})
+    ctx.sample({'version': 340, 'negotiate': True, 'pos': True,
+                'ops': ['status', 'connect'], 'compress': None}, 'refused')
+    ctx.exhaustive_done('refused connect()/status() on a quiescent active '
+                        'session: 5 protocols x negotiated or not x spawned '
+                        'or not x 4 call sequences')
+
+
 def tasks(tier):
     q = tier == 'quick'
-    tl = [('stalled', t_stalled, {}),
+    tl = [('stalled', t_stalled, {}), ('refused', t_refused, {}),
           ('many_reconnects', t_many_reconnects,
            dict(n=1100 if q else 3000))]
     for i in range(len(SMALL)):
